@@ -258,6 +258,25 @@ fn main() {
             .iter()
             .map(|s| s.to_string())
             .collect();
+            // long integral mantissas with small positive exponents (double rounding if parsed in two steps)
+            for _ in 0..(n / 4).max(40) {
+                let digits = 15 + rng.below(6);
+                let mut t = String::new();
+                t.push((b'1' + rng.below(9) as u8) as char);
+                for _ in 1..digits {
+                    t.push((b'0' + rng.below(10) as u8) as char);
+                }
+                let e = 1 + rng.below(24);
+                t.push(if rng.chance(1, 2) { 'e' } else { 'E' });
+                if rng.chance(1, 4) {
+                    t.push('+');
+                }
+                t.push_str(&e.to_string());
+                texts.push(t);
+            }
+            for t in ["9007199254740993e1", "12345678901234567e4", "9_007_199_254_740_993E22", "18014398509481985e2", "9007199254740993e22"] {
+                texts.push(t.to_string());
+            }
             let alphabet: &[u8] = b"0123456789_.eExXbBpP+-aAfF";
             for _ in 0..n {
                 let len = 1 + rng.below(8);
